@@ -15,7 +15,30 @@ from .c16 import FakeClock, TimeShim, sig
 PROP = 'C13'
 TPBS = (1, 2, 96, 480, 32767)
 KINDS = ('note', 'tempo1', 'tempo250000', 'tempoMax', 'text')
-TEMPO = {'tempo1': 1, 'tempo250000': 250000, 'tempoMax': 16777215}
+TEMPO = {'tempo1': 1, 'tempo250000': 250000, 'tempoMax': 16777215,
+         'tempo500000': 500000, 'tempo600000': 600000}
+# long files: (kind pattern, delta pattern) families
+LONG_KINDS = {
+    'default-tempo-again': ('note', 'tempo500000', 'note', 'tempo250000', 'note',
+                            'tempo500000', 'text', 'tempo500000'),
+    'same-tempo-repeated': ('tempo250000', 'note', 'tempo250000', 'note',
+                            'tempo600000', 'tempo600000', 'note'),
+    'many-changes': ('tempo1', 'note', 'tempoMax', 'note', 'tempo250000',
+                     'text', 'tempo600000', 'note', 'tempo500000'),
+    'notes-then-tempo': ('note',) * 9 + ('tempo250000',),
+    'notes-only': ('note', 'text'),
+}
+LONG_DELTAS = {'unit': (1,), 'beat': (2,), 'zero-runs': (0, 0, 0, 2),
+               'mixed': (0, 1, 2, 1, 0, 2, 2), 'zero': (0,)}
+LONG_N = (6, 7, 8, 9, 10, 16, 17, 33, 100, 257, 1000)
+LONG_TRACKS = (1, 2, 3, 5, 9)
+
+
+def long_specs(k, n, kf, df):
+    kinds, deltas = LONG_KINDS[kf], LONG_DELTAS[df]
+    return [tuple((kinds[(pos + 2 * ti) % len(kinds)],
+                   deltas[(pos + ti) % len(deltas)]) for pos in range(n))
+            for ti in range(k)]
 REL = 1e-9
 
 
@@ -104,16 +127,20 @@ def nosig(m):
     return (kind, tuple(sorted(d.items())))
 
 
-def check_file(mido, tpb, specs, acc):
+def check_file(mido, tpb, specs, acc, long=None):
     if FILE_VARIANT[0] == 'plain' and acc.evals % 7 == 0 and any(specs):
         for v in ('frozen', 'subclass'):
             FILE_VARIANT[0] = v
             try:
-                check_file(mido, tpb, specs, acc)
+                check_file(mido, tpb, specs, acc, long)
             finally:
                 FILE_VARIANT[0] = 'plain'
-    case = {'kind': 'file', 'tpb': tpb, 'variant': FILE_VARIANT[0],
-            'tracks': [list(map(list, s)) for s in specs]}
+    if long is None:
+        case = {'kind': 'file', 'tpb': tpb, 'variant': FILE_VARIANT[0],
+                'tracks': [list(map(list, s)) for s in specs]}
+    else:
+        case = {'kind': 'file', 'tpb': tpb, 'variant': FILE_VARIANT[0],
+                'long': list(long)}
     f = build(mido, tpb, specs)
     sched = exact_schedule(mido, f)
     acc.evals += 1
@@ -128,8 +155,9 @@ def check_file(mido, tpb, specs, acc):
         return
     if [nosig(m) for m in msgs] != [s for s, _ in sched]:
         acc.violation('iter/messages-or-order',
-                      f'{case}: iteration gave {[nosig(m) for m in msgs]}, '
-                      f'expected {[s for s, _ in sched]}', case)
+                      f'{case}: iteration gave '
+                      f'{str([nosig(m) for m in msgs])[:600]}, '
+                      f'expected {str([s for s, _ in sched])[:600]}', case)
         return
     cum = 0.0
     for m, (_, t) in zip(msgs, sched):
@@ -298,6 +326,75 @@ def check_play(mido, tpb, specs, acc, max_dev):
                 acc.violation(bad[0], f'{case}: {bad[1]}', case)
 
 
+def check_play_long(mido, tpb, n, kf, df, acc):
+    """play() on a file of n messages with ONE deviation (a consumer delay of
+    three gaps, or a sleep overshoot) at each position: nothing is early, and
+    whenever play() slept (without overshoot) right before a message, that
+    message comes out exactly on schedule - lateness never accumulates."""
+    long = (1, n, kf, df)
+    f = build(mido, tpb, long_specs(*long))
+    sched = exact_schedule(mido, f)
+    exp = [(s, float(t)) for s, t in sched]
+    m_ = len(exp)
+    gaps = [exp[i + 1][1] - exp[i][1] for i in range(m_ - 1)] + [0.0]
+    if m_ <= 130:
+        positions = range(m_)
+    else:
+        positions = [i for i in range(m_) if i % 64 in (62, 63, 0, 1)
+                     or i % 100 == 99 or i < 4 or i > m_ - 4]
+    for kind in ('delay', 'over'):
+        for pos in positions:
+            delays = [0.0] * m_
+            overs = [0.0] * m_
+            if kind == 'delay':
+                delays[pos] = 3.0 * (gaps[pos] if gaps[pos] > 0 else 0.5)
+            else:
+                overs[pos] = 0.125
+            acc.evals += 1
+            acc.nontrivial += 1
+            case = {'kind': 'playlong', 'tpb': tpb, 'long': list(long),
+                    'deviation': [kind, pos]}
+            try:
+                out, log, start = run_play(mido, f, delays, overs, True,
+                                           CLOCK_STARTS[pos % 3])
+            except Exception as e:
+                acc.violation(f'play-raises/{type(e).__name__}',
+                              f'{case} raised {e!r}', case)
+                return
+            if [nosig(m) for m, _ in out] != [s for s, _ in exp]:
+                acc.violation('play/messages/long',
+                              f'{case}: yielded {len(out)} messages, expected '
+                              f'{len(exp)} (or other content/order)', case)
+                return
+            bad = None
+            slept_clean = False
+            k = 0
+            nsleep = 0
+            for entry in log:
+                if entry[0] == 'sleep':
+                    if entry[1] <= 0:
+                        bad = ('play/nonpositive-sleep', f'sleep({entry[1]!r})')
+                        break
+                    slept_clean = overs[nsleep] == 0.0 if nsleep < m_ else True
+                    nsleep += 1
+                    continue
+                at, t = entry[2] - start, exp[k][1]
+                if at < t - 1e-9 * max(1.0, t):
+                    bad = ('play/early', f'message {k} yielded at {at!r} s, '
+                           f'scheduled at {t!r} s')
+                    break
+                if slept_clean and not close(at, t) and abs(at - t) > 1e-9:
+                    bad = ('play/drift', f'message {k} of {m_} yielded at '
+                           f'{at!r} s right after a sleep, scheduled at {t!r} '
+                           f's: the sleep was not the remaining time')
+                    break
+                slept_clean = False
+                k += 1
+            if bad is not None:
+                acc.violation(bad[0] + '/long', f'{case}: {bad[1]}', case)
+                return
+
+
 def seqs(n, kinds=KINDS):
     syms = [(k, d) for k in kinds for d in (0, 1, 2)]
     for k in range(n + 1):
@@ -317,6 +414,26 @@ def worker(shard):
         tpb, t0, n = shard[1], shard[2], shard[3]
         for t1 in seqs(n, KINDS[:4]):
             check_file(mido, tpb, [t0, t1], acc)
+    elif kind == 'long':
+        tpb, k = shard[1], shard[2]
+        for n in LONG_N:
+            if k * n > 3000:
+                continue
+            for kf in LONG_KINDS:
+                for df in LONG_DELTAS:
+                    check_file(mido, tpb, long_specs(k, n, kf, df), acc,
+                               long=(k, n, kf, df))
+        acc.sample({'tpb': tpb, 'tracks': k, 'events_per_track': list(LONG_N),
+                    'kind_patterns': list(LONG_KINDS),
+                    'delta_patterns': list(LONG_DELTAS)}, cap=1)
+    elif kind == 'playlong':
+        tpb, n = shard[1], shard[2]
+        for kf in ('many-changes', 'notes-only', 'default-tempo-again'):
+            for df in ('unit', 'mixed'):
+                check_play_long(mido, tpb, n, kf, df, acc)
+        acc.sample({'play_tpb': tpb, 'messages': n,
+                    'one_deviation_at': 'every position (n <= 130) or around '
+                                        'multiples of 64 and 100'}, cap=1)
     elif kind == 'misc':
         check_type2(mido, acc)
         for tpb in TPBS:
@@ -372,12 +489,16 @@ def run():
         shards += [('one', tpb, s, n1) for s in syms]
         if thorough or tpb in (1, 480):
             shards += [('two', tpb, t0, n2) for t0 in seqs(n2, KINDS[:4])]
+    for tpb in TPBS:
+        shards += [('long', tpb, k) for k in LONG_TRACKS]
     dev = 2
     psyms = [(k, d) for k in ('note', 'tempo250000', 'text') for d in (0, 1, 2)]
     for tpb in (480, 1) if not thorough else (480, 1, 32767):
         shards += [('play', tpb, s, 3 if not thorough else 4, dev)
                    for s in psyms]
         shards.append(('play2', tpb, dev))
+    for n in (6, 10, 33, 100, 255, 256, 257, 300, 520, 1030):
+        shards.append(('playlong', 480 if n % 2 else 96, n))
     ticks = tuple(range(0, 4096)) + tuple(
         v for k in range(12, 29) for v in ((1 << k) - 1, 1 << k))
     tempos = (1, 2, 3, 7, 250000, 500000, 500001, 16777215)
@@ -392,12 +513,18 @@ def run():
         f'set_tempo(250000), set_tempo(16777215), text}} x delta {{0, 1, '
         f'tpb}}; cumulative time of every iterated message and length '
         f'compared (1e-9 relative) with the exact rational tempo-map '
-        f'integral; type 2 must refuse iter/length/play. play(): files of '
+        f'integral; long files of {list(LONG_TRACKS)} tracks x '
+        f'{list(LONG_N)} events (<= 3000 in all) x {len(LONG_KINDS)} event '
+        f'patterns (the default tempo set explicitly, the same tempo '
+        f'repeated, many changes) x {len(LONG_DELTAS)} delta patterns; '
+        f'type 2 must refuse iter/length/play. play(): files of '
         f'length <= 3 x every set of <= {dev} deviations from the default '
         f'environment (consumer delay 0.25 or 3 gaps after a yield, sleep '
         f'overshoot 0.125 s) on a harness clock: never early, no drift when '
         f'the consumer keeps up, every sleep ends exactly at a scheduled '
-        f'time, meta messages only on request. units: second2tick('
+        f'time, meta messages only on request; long files of 6..1030 '
+        f'messages with one consumer delay or sleep overshoot at each '
+        f'position. units: second2tick('
         f'tick2second(t)) == t for t in 0..4095 and 2**k-1, 2**k (k<=28) x 8 '
         f'tpb x 8 tempos. Non-trivial file = contains a tempo change; '
         f'non-trivial play = >= 1 deviation')
@@ -414,15 +541,20 @@ def check_case(case):
     mido = common.import_mido()
     acc = Acc()
     if case['kind'] == 'file':
-        specs = [tuple(tuple(x) for x in s) for s in case['tracks']]
+        long = tuple(case['long']) if 'long' in case else None
+        specs = long_specs(*long) if long else [
+            tuple(tuple(x) for x in s) for s in case['tracks']]
         FILE_VARIANT[0] = case.get('variant', 'plain')
         try:
-            check_file(mido, case['tpb'], specs, acc)
+            check_file(mido, case['tpb'], specs, acc, long)
         finally:
             FILE_VARIANT[0] = 'plain'
     elif case['kind'] == 'play':
         specs = [tuple(tuple(x) for x in s) for s in case['tracks']]
         check_play(mido, case['tpb'], specs, acc, 2)
+    elif case['kind'] == 'playlong':
+        _, n, kf, df = case['long']
+        check_play_long(mido, case['tpb'], n, kf, df, acc)
     elif case['kind'] == 'type2':
         check_type2(mido, acc)
     elif case['kind'] == 'units':
